@@ -166,10 +166,37 @@ def segments(expr, hook=None, depth=0):
         if mc and mc[1] == 'join' and len(expr.args) == 1:
             sep = segments(mc[0], hook, depth + 1)
             a = expr.args[0]
+            while isinstance(a, ast.Call) and isinstance(
+                    a.func, ast.Name) and a.func.id in (
+                        'list', 'tuple') and len(a.args) == 1 and \
+                    not a.keywords:
+                a = a.args[0]
+            if isinstance(a, ast.Call) and isinstance(a.func, ast.Name) \
+                    and a.func.id == 'map' and len(a.args) == 2 and \
+                    not a.keywords:
+                # map(f, xs) = (f(x) for x in xs)
+                x = ast.Name(id='_x', ctx=ast.Load())
+                return [Join(sep, segments(
+                    ast.Call(func=a.args[0], args=[x], keywords=[]), hook,
+                    depth + 1), U(a.args[1]), expr)]
             if isinstance(a, (ast.GeneratorExp, ast.ListComp)) and len(
                     a.generators) == 1:
                 return [Join(sep, segments(a.elt, hook, depth + 1),
                              U(a.generators[0].iter), expr)]
+            if isinstance(a, (ast.List, ast.Tuple)) and a.elts and not any(
+                    isinstance(x, ast.Starred) for x in a.elts):
+                # a display: its pieces in order, the separator in between
+                out = []
+                for i, x in enumerate(a.elts):
+                    if i:
+                        out.extend(sep)
+                    out.extend(segments(x, hook, depth + 1))
+                return out
+            if isinstance(a, ast.BinOp):
+                # sequences assembled in code (a + b): their order and
+                # contents are not read here
+                raise Unknown('join over the assembled sequence %s'
+                              % U(a)[:60])
             return [Join(sep, None, U(a), expr)]
         if isinstance(expr.func, ast.Name) and expr.func.id == 'str' and \
                 len(expr.args) == 1:
